@@ -9,6 +9,7 @@ import Model.Canon
 import Model.Rabin
 import Spec.Normalize
 import Spec.Encode
+import Model.Container
 
 open Lean Wire
 
@@ -79,6 +80,79 @@ def handle (j : Json) : String :=
       match Spec.encode (fun f bs v => (Binary.choose f env o bs v).toOption) FUEL env s (getV j "value") with
       | none => "{\"none\":true}"
       | some b => "{\"bytes\":\"" ++ hex b ++ "\"}"
+  | "container.run" =>
+    match parseReq j with
+    | .error e => "{\"perr\":\"" ++ e.name ++ "\"}"
+    | .ok (s, env) =>
+      let o := wopts j
+      let sync := unhex (getS j "sync")
+      let interval := (getJ j "interval").getNat?.toOption.getD 16000
+      let metadata : List (String × Bytes) := match getJ j "meta" with
+        | .arr xs => xs.toList.filterMap fun x => match x with
+            | .arr #[.str k, .str v] => some (strOfHex k, unhex v)
+            | _ => none
+        | _ => []
+      let cfg : Container.WCfg := { codec := Container.Codec.null, sync := sync, interval := interval,
+                                    validator := getB j "validator" }
+      let enc := fun v => Binary.writeData FUEL env o s v
+      let vo : VOpts := { strict := o.strict, disableTuple := o.disableTuple }
+      let val := fun v => Validate.validate FUEL env vo false "" s (some v)
+      let hdr := Container.writeHeader metadata sync
+      let ops : List Container.Op := match getJ j "ops" with
+        | .arr xs => xs.toList.map fun x =>
+            match (x.getObjVal? "w").toOption, (x.getObjVal? "b").toOption with
+            | some v, _ => Container.Op.write (toVal v)
+            | _, some (.arr #[n, .str p]) => Container.Op.writeBlock (intOfJson n) (unhex p)
+            | _, _ => Container.Op.flush
+        | _ => []
+      let init : Container.WState := { out := [], pending := [], count := 0 }
+      let (st, errs) := ops.foldl (fun (acc : Container.WState × List String) op =>
+          let (st', e) := Container.step enc val cfg acc.1 op
+          (st', acc.2 ++ [match e with | some e => "\"" ++ e.name ++ "\"" | none => "null"])) (init, [])
+      let (infos, _) := Container.readBlockInfos Container.Codec.null sync (st.out.length + 1) 0 st.out
+      "{\"header\":\"" ++ hex hdr.out ++ "\",\"herr\":" ++ (match hdr.err with | some e => "\"" ++ e.name ++ "\"" | none => "null") ++
+        ",\"blocks\":[" ++ ",".intercalate (infos.map fun b => "[" ++ toString b.numRecords ++ ",\"" ++ hex b.payload ++ "\"]") ++
+        "],\"errs\":[" ++ ",".intercalate errs ++ "],\"pending\":\"" ++ hex st.pending ++ "\",\"count\":" ++ toString st.count ++ "}"
+  | "container.read" =>
+    match parseReq j with
+    | .error e => "{\"perr\":\"" ++ e.name ++ "\"}"
+    | .ok (s, env) =>
+      let table : List (String × Bytes) := match getJ j "decomp" with
+        | .arr xs => xs.toList.filterMap fun x => match x with
+            | .arr #[.str c, .str p] => some (c, unhex p)
+            | _ => none
+        | _ => []
+      let known : List String := match getJ j "codecs" with
+        | .arr xs => xs.toList.filterMap fun x => x.getStr?.toOption
+        | _ => ["null"]
+      let codecFor : String → Option Container.Codec := fun n =>
+        if !known.contains n then none
+        else if n == "null" then some Container.Codec.null
+        else some { compress := id, decompress := fun b => table.lookup (hex b) }
+      let dec := fun bs => Binary.readData FUEL env (ropts j) s bs
+      let bs := unhex (getS j "bytes")
+      if getB j "blocks" then
+        match Container.readHeader bs with
+        | .error e => "{\"herr\":\"" ++ e.name ++ "\"}"
+        | .ok (h, rest) =>
+          match h.codecName with
+          | .error e => "{\"herr\":\"" ++ e.name ++ "\"}"
+          | .ok cn =>
+            match codecFor cn with
+            | none => "{\"herr\":\"value\"}"
+            | some c =>
+              let (infos, e) := Container.readBlockInfos c h.sync (rest.length + 1) (bs.length - rest.length) rest
+              "{\"blocks\":[" ++ ",".intercalate (infos.map fun b =>
+                  "[" ++ toString b.offset ++ "," ++ toString b.size ++ "," ++ toString b.numRecords ++ "]") ++
+                "],\"end\":" ++ (match e with | .eof => "\"eof\"" | .error e => "{\"err\":\"" ++ e.name ++ "\"}") ++ "}"
+      else
+      let (h, recs, e) := Container.readContainer (fun _ => some dec) codecFor bs
+      let hs := match h with
+        | .error e => "{\"herr\":\"" ++ e.name ++ "\"}"
+        | .ok h => "{\"meta\":[" ++ ",".intercalate (h.metadata.map fun (k, v) => "[" ++ jsonStr k ++ ",\"" ++ hex v ++ "\"]") ++
+            "],\"sync\":\"" ++ hex h.sync ++ "\"}"
+      "{\"header\":" ++ hs ++ ",\"records\":[" ++ ",".intercalate (recs.map ofVal) ++ "],\"end\":" ++
+        (match e with | .eof => "\"eof\"" | .error e => "{\"err\":\"" ++ e.name ++ "\"}") ++ "}"
   | "skip" =>
     match parseReq j with
     | .error e => "{\"perr\":\"" ++ e.name ++ "\"}"
